@@ -460,6 +460,31 @@ class Eval:
                         out = out + sep
                     out = out + self._tostr(it)
                 return out
+        modfuncs = {k: f for k, f in self.table.mod.funcs.items() if "." not in k}
+        inline = None
+        if fn in modfuncs:
+            inline = (modfuncs[fn].node, 0)
+        elif fn and fn.startswith("self.") and fn.count(".") == 1 and fn.split(".")[1] in self.table.helpers and fn.split(".")[1] != "__call__" \
+                and len(e.args) + len(e.keywords) > 1:
+            inline = (self.table.helpers[fn.split(".")[1]], 1)
+        if inline is not None:
+            h, skip = inline
+            params = [a.arg for a in h.args.args][skip:]
+            vals = [self._expr(a, env) for a in e.args]
+            kws = {k.arg: self._expr(k.value, env) for k in e.keywords}
+            henv = {"self": env.get("self")} if skip else {}
+            nd = len(h.args.defaults)
+            for i, p_ in enumerate(params):
+                if i < len(vals):
+                    henv[p_] = vals[i]
+                elif p_ in kws:
+                    henv[p_] = kws[p_]
+                elif i >= len(params) - nd:
+                    henv[p_] = self._expr(h.args.defaults[i - (len(params) - nd)], {})
+                else:
+                    raise AnalysisError(f"fmt_eval: missing argument {p_} in call of {fn}")
+            r = self._block(h.body, henv)
+            return r.value if isinstance(r, _Ret) else None
         if fn and fn.startswith("self.") and fn.split(".")[1] in self.table.helpers:
             x = self._expr(e.args[0], env) if e.args else None
             if isinstance(x, (int, float, complex)) and not isinstance(x, bool):
